@@ -234,6 +234,39 @@ func verify(dir string, sc Scenario, before, after snapshot) string {
 			}
 		}
 	}
+	// the store must go on behaving like a map after the crash: a completed write of a
+	// shorter and then of a longer value through the fresh store reads back exactly
+	// (a leftover of the interrupted write must not leak into later values)
+	for _, k := range ks {
+		if strings.HasSuffix(k, ".tmp") || strings.HasPrefix(k, ".") || strings.HasSuffix(k, ".entity") {
+			continue
+		}
+		if _, touched := after[k]; !touched {
+			continue
+		}
+		if bytes.Equal(before[k], after[k]) && sc.Kind != "config" {
+			continue
+		}
+		for _, v := range [][]byte{[]byte("xyz"), pattern('L', 6000), {}} {
+			if err := st.Set(k, v); err != nil {
+				return fmt.Sprintf("follow-up Set(%q, %d bytes) after the crash fails: %v", k, len(v), err)
+			}
+			got, err := st.Get(k)
+			if err != nil || !bytes.Equal(got, v) {
+				return fmt.Sprintf("after the crash a completed Set(%q, %d bytes) reads back as %d bytes (err=%v): a leftover of the interrupted write leaked into the value", k, len(v), len(got), err)
+			}
+		}
+	}
+	if sc.Kind == "entity" {
+		e := db.NewEntity("controller-1", pattern('F', 32), nil)
+		if err := d.SaveEntity(e); err != nil {
+			return "follow-up SaveEntity after the crash fails: " + err.Error()
+		}
+		got, err := d.EntityWithName("controller-1")
+		if err != nil || !bytes.Equal(got.PublicKey, e.PublicKey) || len(got.PrivateKey) != 0 {
+			return fmt.Sprintf("after the crash a completed SaveEntity does not read back (err=%v)", err)
+		}
+	}
 	return ""
 }
 
